@@ -155,14 +155,20 @@ func (w *world) checkCover(api string, ranges [][2]string, locs []*locate.KeyLoc
 	w.st.evals.Add(1)
 	ok, missing, overlap := coverWalk(locs, ranges)
 	if !ok {
-		// Classify by what the cache held for the uncovered point before the call.
+		// Classify by what the cache held for the uncovered point before the call: a usable entry
+		// (any, not only the one a point search would pick) that reaches +inf, else a bounded one.
 		class := "gap"
 		now := time.Now().Unix()
-		if e := cachedEntryFor(pre, missing); e != nil && e.TTL >= now && e.SyncFlags&9 == 0 {
-			class = "cached-region-dropped"
+		for i := range pre.Sorted {
+			e := &pre.Sorted[i]
+			if e.TTL < now || e.SyncFlags&9 != 0 || string(e.Start) > missing || (len(e.End) != 0 && missing >= string(e.End)) {
+				continue
+			}
 			if len(e.End) == 0 {
 				class = "cached-unbounded-last-region-dropped"
+				break
 			}
+			class = "cached-region-dropped"
 		}
 		w.report(api+":"+class, fmt.Sprintf("%s returned %s: key %q of the requested ranges is not covered (in order); cache before %s; cluster %s",
 			w.curOp, locsStr(locs), missing, w.cacheStr(pre), w.topoStr()))
